@@ -43,7 +43,7 @@ def writer_paths(chk, fx, a, variant):
     record_engine(chk, eng, "Message::write(%s): %d paths" % (variant, len(rets)))
     out = []
     for s, _ in rets:
-        wt = layout.wtokens(eng, s)
+        wt = layout.split_known_bytes(eng, s, layout.wtokens(eng, s))
         # the flag word may be emitted as a constant per path or assembled from boolean bits: resolve to constants
         alts = layout.resolve_word(eng, s, wt[0]["val"]) if wt and wt[0]["k"] == "int" and wt[0]["prov"][0] != "const" else None
         if alts:
